@@ -462,7 +462,8 @@ func (s *transactionStore) List(ctx context.Context) ([]configapi.Transaction, e
 		for {
 			entry, err := stream.Next()
 			if err == io.EOF {
-				return transactions, nil
+				// The end of this target's log: go on with the next target
+				break
 			}
 			if err != nil {
 				return nil, err
